@@ -166,6 +166,42 @@ def pairs(ctx: Ctx):
     return ps
 
 
+def parallel_worker_faults(ctx: Ctx) -> None:
+    """Failed store writes INSIDE the workers of a parallel build (injected through the worker shim): the next
+    run must still equal the cold run; what the faulty parallel run itself does is recorded."""
+    base = os.path.join(ctx.tmp, "pwf")
+    root = os.path.join(base, "src")
+    os.makedirs(root)
+    files = {"a.py": "import b\nx: int = b.f()\n", "b.py": "import c\ndef f() -> str:\n    return c.g()\n",
+             "c.py": "def g() -> str:\n    return 1\n"}
+    for pth, text in files.items():
+        open(os.path.join(root, pth), "w").write(text)
+        os.utime(os.path.join(root, pth), (1_700_000_002, 1_700_000_002))
+    cold = B.run_mypy(root, os.path.join(base, "cold"), ["--native-parser"], scratch=base)
+    for pat in ("b.data", "b.meta_ex", "c.meta."):
+        cdir = os.path.join(base, "c-" + pat.replace(".", "_"))
+        faulty = B.run_mypy(root, cdir, ["-n", "2"], sched_seed=ctx.seed, env_extra={"VERIF_WORKER_FAIL_WRITE": pat}, scratch=base)
+        after = B.run_mypy(root, cdir, ["--native-parser"], scratch=base)
+        ctx.case(("parallel-worker-failed-write", pat))
+        ctx.dist("fault_kind", "worker-failed-write")
+        if after.get("status") not in (0, 1):
+            raise ToolFailure(f"follow-up run after a parallel worker fault failed: {after.get('stderr', '')[-800:]}")
+        d = B.diff_outputs(B.canon_output(after), B.canon_output(cold))
+        rep = {"files": files, "workers": 2, "failing_write_contains": pat, "faulty_run_status": faulty.get("status"),
+               "faulty_run_stderr": (faulty.get("stderr") or "")[-1200:], "diff_next_run_vs_cold": d}
+        if d and not B.only_once_note_diff(d):
+            ctx.report({"class": "stale-after-fault", "window": "parallel-worker-failed-write", "store": "sqlite"},
+                       f"next run after a failed write of '{pat}' inside a parallel worker differs from the cold run: {d[:2]}", rep)
+        elif faulty.get("status") not in (0, 1):
+            ctx.report({"class": "parallel-build-aborts-on-failed-worker-write"},
+                       f"a failed write of '{pat}' inside a parallel worker aborts the whole build with an internal error "
+                       "(the next run is correct)", rep)
+        elif B.diff_outputs(B.canon_output(faulty), B.canon_output(cold)) and not B.only_once_note_diff(B.diff_outputs(B.canon_output(faulty), B.canon_output(cold))):
+            ctx.report({"class": "parallel-run-with-failed-worker-write-reports-differently"},
+                       f"a parallel run in which the write of '{pat}' fails inside a worker reports different diagnostics", rep)
+    shutil.rmtree(base, ignore_errors=True)
+
+
 def main(ctx: Ctx) -> None:
     ctx.coverage["rule"] = ("a case = one fault scenario (crash before store op k / a set of failed writes) of one (program, edit, store config) "
                             "followed by a normal run compared with the cold run; non-trivial when the faulty run had re-analysed a user "
@@ -247,6 +283,7 @@ def main(ctx: Ctx) -> None:
                 what = "next run after a fault differs from the cold run" if fr["diff"] else "a run with a failed cache write reports different diagnostics"
                 ctx.report({"class": "stale-after-fault", "window": window, "store": res["config"].split("-")[0]},
                            f"{what} ({res['config']}; {where}): {d[:2]}", replay)
+    parallel_worker_faults(ctx)
     if results:
         r = results[0]
         ctx.sample({"pair": r["pid"], "ops_of_warm_run": r["ops"], "faults_tried": len(r["faults"]),
